@@ -143,7 +143,10 @@ def run(chk):
                 "seeded noise. A case is non-trivial when it is distinct in (type, policy flags, api, operation, direction, "
                 "result word): distinct_nontrivial counts these classes as observed by the judge. Floats / mpz / mpq / conversions between all 12 numeric "
                 "types / all comparison entry points: exact-oracle stream of harness/run_checked_num.cc (operands at the representability boundaries of every "
-                "type, specials, denormals, dyadic rationals aimed at the rounding decision, seeded random); counted as one class per section.")
+                "type, specials, denormals, dyadic rationals aimed at the rounding decision, seeded random) and textual input (assign_r from strings generated "
+                "from a structural description covering every production of parse_number -- sign, 0x / b^^ bases, fractional part, e/E/p/*^ exponents, "
+                "NUM/DEN with every exponent-merge sign case, trailing zeros, inf/nan, malformed strings -- into mpq, mpz, float, double and the eight "
+                "native integer types, value and relation checked exactly); counted as one class per section.")
     chk.trusted += ["Coq 8.16.1 kernel (coqc), no axioms (Print Assumptions on every theorem of Properties_C11.v)",
                     "extraction with ExtrOcamlBasic only; OCaml 4.13.1; g++",
                     "hand-written transcription coq/Checked/{Int,Ext}.v of checked_int_inlines.hh / checked_ext_inlines.hh "
@@ -280,7 +283,7 @@ def run(chk):
             info["entry"] = "%s(%s,%s)" % (key[2], key[3], key[4])
         num_summary["/".join(str(k) for k in key)] = {"count": a["count"], "entries": sorted(a["ops"])[:8]}
         chk.failure(info, {"example": a["example"], "count": a["count"]})
-    nev = sum(v for k, v in ncounts.items() if k in ("conv", "arith", "compare"))
+    nev = sum(v for k, v in ncounts.items() if k in ("conv", "arith", "compare", "input"))
     chk.count(nev, key=("num-oracle", tuple(sorted(ncounts.items()))), sample={"exact-oracle stream (no model)": ncounts})
     chk.extra["exact_oracle_float_gmp_compare"] = {"evaluations": ncounts, "failures": num_summary}
     chk.log("float/mpz/mpq/conversion/comparison oracle: %s; failure classes: %s (%.1fs)" % (ncounts, sorted(num_summary), time.time() - t0))
